@@ -3,9 +3,11 @@ C15b — marshalling: the full round trip `unmarshal (marshal x) = x` for parame
 signatures and master keys, in both wire forms.
 
 Continues `Properties/C15.lean` (length accounting).  The marshalling side is `Impl/Marshal.lean`
-(`marshalParams`, `marshalKey`) plus `marshalCt`, `marshalSig`, `marshalMsk` (`Proofs/EncodeProofs.lean`); the
-UNMARSHALLING side is modelled in `Proofs/EncodeProofs.lean` (`unmarshalParams`, `unmarshalKey`, `unmarshalCt`,
-`unmarshalSig`, `unmarshalMsk`: `setLength` followed by `…::unmarshal` of src/wkdibe/marshal.cpp), parameterised by a
+(`marshalParams`, `marshalKey`, `marshalCt`, `marshalSig`, `marshalMsk`); the UNMARSHALLING side is modelled in the same
+file (`unmarshalParams`, `unmarshalKey`, `unmarshalCt`, `unmarshalSig`, `unmarshalMsk`: `setLength` followed by
+`…::unmarshal` of src/wkdibe/marshal.cpp) — these are the very definitions the differential judge executes against the
+real code (Driver/Judge6.lean, with `canonicalDecoders`, proved equivalent to `checkedDecoders` in
+Proofs/EncodeProofs.lean `unmarshal*_canonicalDecoders`) —, parameterised by a
 record `Decoders` of point decoders and the pairing:
   * `libDecoders checked pair`  — `Encoding::decode(·, checked)` as modelled in `Impl/Encode.lean`;
   * `checkedDecoders pair`      — the repaired validating decode (`decodeChecked`, with `coordinate_is_canonical`).
